@@ -334,3 +334,20 @@ pub fn execute_id(spec: &'static PropSpec, base_seed: u64, tier: Tier, id: &RunI
         }
     }
 }
+
+/// Start a child process, retrying for a moment when the system is short of resources (EAGAIN /
+/// ENOMEM / ETXTBSY while many builds and workers run at once): a spawn failure of the harness's
+/// own helper processes must not turn into a verdict or a harness error.
+pub fn spawn_retry(cmd: &mut std::process::Command) -> std::io::Result<std::process::Child> {
+    let mut last = None;
+    for attempt in 0..40 {
+        match cmd.spawn() {
+            Ok(c) => return Ok(c),
+            Err(e) => {
+                last = Some(e);
+                std::thread::sleep(std::time::Duration::from_millis(25 * (1 + attempt)));
+            }
+        }
+    }
+    Err(last.unwrap_or_else(|| std::io::Error::other("spawn failed")))
+}
